@@ -80,7 +80,7 @@ def gen_http_msg(rng):
     return ("unknown",)
 
 
-REQ_HEADERS = [(b"host", b"example.com"), (b"Host", b"other.test"), (b"te", b"trailers"), (b"te", b"gzip"), (b"accept", b"*/*"),
+REQ_HEADERS = [(b"host", b"example.com"), (b"Host", b"other.test"), (b"host", b"ex\xffmple.com"), (b"te", b"trailers"), (b"te", b"gzip"), (b"accept", b"*/*"),
                (b"x-dup", b"1"), (b"x-dup", b"2"), (b"cookie", b"a=b")]
 PATHS = [b"/", b"/a/b", b"/a%20b?x=1", b"/p?", b"/?a?b", b"/%41%zz%4", b"/caf%C3%A9", b"*", b"/x%", b"/\xc3\xa9", b"/a?q=\xff"]
 
